@@ -69,10 +69,11 @@ def eqM (A B : BMat) : Bool :=
     (List.range A.nrows).all fun i => A.row i % 2 ^ A.ncols = B.row i % 2 ^ B.ncols
 
 /-- same row space (canonical form: the unique RREF) -/
-def sameRowSpace (A B : BMat) : Bool := A.ncols = B.ncols ∧
+def sameRowSpace (A B : BMat) : Bool :=
   let ra := A.rref; let rb := B.rref
   let k := max A.nrows B.nrows
-  (List.range k).all fun i => ra.row i % 2 ^ A.ncols = rb.row i % 2 ^ B.ncols
+  decide (A.ncols = B.ncols) &&
+    (List.range k).all fun i => decide (ra.row i % 2 ^ A.ncols = rb.row i % 2 ^ B.ncols)
 
 /-- checker for the echelonisation entry points: `R` is what the routine left, `r` what it returned -/
 def checkEchelon (A R : BMat) (r : Nat) (full : Bool) : Bool :=
